@@ -174,17 +174,15 @@ def build_matrix_subject(r):
             cs = m.new_character_subset(label="first", character_indices=[0])
             decorate_annotable(cs, "cs", deco, "label")
             m.new_character_subset(label="all", character_indices=list(range(width)))
-        if tp != "continuous":
-            ct = m.new_character_type(label="ctype", state_alphabet=m.default_state_alphabet)
-            m.character_types.append(ct)
-        else:
-            ct = None
+        ct = m.new_character_type(label="ctype", state_alphabet=None if tp == "continuous" else m.default_state_alphabet)
+        m.character_types.append(ct)
         for i, (t, s) in enumerate(m._taxon_sequence_map.items()):
             s.annotations.add_new("seqnote", "s%d" % i)
             if len(s) > 0:
-                s.annotations_at(0).add_new("cellnote", "c%d" % i)
-                if ct is not None:
+                if deco == 2:
                     s.set_character_type_at(0, ct)
+                # deco 3: the cell's annotation set is created while the cell has no character type
+                s.annotations_at(0).add_new("cellnote", "c%d" % i)
     return m
 
 
@@ -272,13 +270,13 @@ def dump(kind, x, depth):
         return C.tree_dump(x, taxon_key=tk)
     if kind == "treelist":
         if depth == "shallow":
-            return [x._label, list(x.comments), C.ann_dump(x), [id(t) for t in x._trees]]
+            return [x._label, C.ann_dump(x), [id(t) for t in x._trees]]
         return C.treelist_dump(x, taxon_key=tk)
     if kind == "matrix":
         if depth == "shallow":
             return [type(x).__name__, x._label, C.ann_dump(x),
                     sorted((id(t), id(s)) for t, s in x._taxon_sequence_map.items())]
-        return C.matrix_dump(x, taxon_key=tk)
+        return C.matrix_dump(x, taxon_key=tk, positional=(depth != "newns"))
     if kind == "ns":
         if depth == "shallow":
             d = C.ns_dump(x, with_taxa=False)
@@ -707,10 +705,10 @@ def eval_job(job):
 def _shallow_shape(kind, x):
     """container-level view used for shallow copies: label, comments, annotations, member identities by position"""
     if kind == "treelist":
-        return [x._label, list(x.comments), C.ann_dump(x), [id(t) for t in x._trees]]
+        return [x._label, C.ann_dump(x), [id(t) for t in x._trees]]
     if kind == "matrix":
-        return [x._label, list(x.comments), C.ann_dump(x), sorted(id(t) for t in x._taxon_sequence_map)]
-    return [x._label, list(x.comments), C.ann_dump(x), [id(t) for t in x._taxa], x._current_accession_count,
+        return [x._label, C.ann_dump(x), sorted(id(t) for t in x._taxon_sequence_map)]
+    return [x._label, C.ann_dump(x), [id(t) for t in x._taxa], x._current_accession_count,
             sorted(x._accession_index_taxon_map), sorted(x._taxon_accession_index_map.values()), sorted(x._taxon_bitmask_map.values())]
 
 
@@ -781,7 +779,9 @@ def jobs_matrices(tier):
     shapes = [[4, 4, 4], [None, 4, None], [1, 1, 1], [4, 2, 0], [3, None, 4], [None, None]]
     for tp in MTYPES:
         for lens in shapes:
-            for deco in (0, 2):
+            for deco in (0, 2, 3):
+                if deco == 3 and not (lens == [4, 2, 0] and tp in ("dna", "continuous")):
+                    continue
                 for nsx in ((0,) if tier == "quick" else (0, 2)):
                     r = {"kind": "matrix", "type": tp, "lens": lens, "deco": deco, "nsx": nsx}
                     for route in ROUTES["matrix"]:
